@@ -126,6 +126,49 @@ def run(tier):
                                    (rx, pat, "matches" if a else "rejects", w, "matches" if b else "rejects"), {"regex": rx, "emitted": pat, "witness": w}))
             else:
                 inconclusive.append("regex %r: z3 witness %r (emitted %r) does not reproduce in the real matcher" % (rx, w, pat))
+    # ---- mixed: a quoted literal and a regex with the SAME source text in one grammar (and literals that look like each other's
+    #      escaped form): every terminal must keep its own language whatever else the grammar contains
+    same_text = [".", "a.b", "[ab]", "a+", "x*y", r"\d", "(a|b)", "a{2}", r"\.", "a?", "[^a]", r"\w+", "(?i)k", "é+"]
+    groups = [[("lit", t), ("re", t)] for t in same_text]
+    groups.append([("lit", "a.c"), ("lit", r"a\.c"), ("lit", r"a\\.c")])
+    groups.append([("lit", "+"), ("lit", r"\+"), ("re", r"\+\+")])
+    for grp in groups:
+        spec = LX.LexSpec("c10_mixed", None, list(grp))
+        gen = K.run_generator(LX.to_lalrpop(spec), spec.name)
+        programs += 1
+        if not gen.ok:
+            inconclusive.append("mixed grammar %r rejected by the generator: %s" % (grp, gen.out.strip().splitlines()[-1:]))
+            continue
+        lx = X.extract_lexer(gen.rs)
+        emitted = {}
+        for i, (pat, skip) in enumerate(lx["strs"]):
+            if i in lx["tok2term"]:
+                emitted[X.terminal_key(lx["terminals"][lx["tok2term"][i]])] = pat
+        for kind, text in grp:
+            checked += 1
+            pat = emitted.get((kind, text))
+            if pat is None:
+                violations.append(("mixed-missing:%s:%s" % (kind, text), "terminal %s %r has no pattern of its own in a grammar that also declares %r" % (kind, text, grp), {"group": grp}))
+                continue
+            try:
+                want = lit_hir(text) if kind == "lit" else X.parse(text)
+                v, w = equiv_query(solver, X.parse(pat), want)
+            except X.Unsupported as ex:
+                inconclusive.append("mixed %r: %s" % (grp, ex))
+                continue
+            if len(samples) < 90:
+                samples.append({"grammar_terminals": grp, "terminal": [kind, text], "emitted": pat, "verdict": v})
+            if v == "unknown":
+                inconclusive.append("mixed %s %r: z3 gave no answer" % (kind, text))
+            elif v == "differ":
+                disagreements += 1
+                a = full_match(pat, w)
+                b = (w == text) if kind == "lit" else full_match(text, w)
+                if a is not None and b is not None and a != b:
+                    violations.append(("mixed:%s:%s" % (kind, text), "in a grammar declaring %r the %s terminal %r is emitted as %r, which %s %r (real Matcher confirms)" %
+                                       (grp, "quoted" if kind == "lit" else "regex", text, pat, "matches" if a else "does not match", w), {"group": grp, "emitted": pat, "witness": w}))
+                else:
+                    inconclusive.append("mixed %s %r: witness %r does not reproduce" % (kind, text, w))
     return finish(PID, tier, t0, known, violations, inconclusive, samples, programs, checked, disagreements, solver,
                   functions=["lalrpop::lexer::re::{parse_literal, parse_regex} (run natively)", "lalrpop::lexer::intern_token::compile (run natively; its output is the encoded object)",
                              "regex_syntax::escape / Hir Display (through the real generator)", "tok::apply_string_escapes (through the real generator)",
